@@ -275,6 +275,8 @@ def taylor_signature(fv, hsyms, dim, max_total, min_total=0):
                             continue
                         term = coef if comp == 'A' else Poly.const(0)
                     else:
+                        if off and isinstance(off[-1], tuple) and off[-1] and off[-1][0] == 'args':
+                            off = off[:-1]
                         m = Poly.const(1)
                         for k in range(nvar):
                             if alpha[k]:
